@@ -6,8 +6,8 @@ import knncommon as K
 
 PID = "C13"
 PIDS = ("C13",)
-DESIGN = {"quick": [("OPFKnn.n3.cfg", 2), ("OPFKnn.n3k2.cfg", 2), ("OPFKnn.live.cfg", 2), ("OPFKnn.n4d2.cfg", 8)],
-          "thorough": [("OPFKnn.n3.cfg", 2), ("OPFKnn.n3k2.cfg", 2), ("OPFKnn.live.cfg", 2), ("OPFKnn.n4d2.cfg", 8), ("OPFKnn.n4k1.cfg", 8), ("OPFKnn.n4d3.cfg", 12)]}
+DESIGN = {"quick": [("OPFKnn.n3.cfg", 2), ("OPFKnn.n3k2.cfg", 2), ("OPFKnn.live.cfg", 2), ("OPFKnn.half.cfg", 6), ("OPFKnn.n4d2.cfg", 8)],
+          "thorough": [("OPFKnn.n3.cfg", 2), ("OPFKnn.n3k2.cfg", 2), ("OPFKnn.live.cfg", 2), ("OPFKnn.half.cfg", 6), ("OPFKnn.n4d2.cfg", 8), ("OPFKnn.n4k1.cfg", 8), ("OPFKnn.n4d3.cfg", 12)]}
 
 
 def design(rep, tier, table=DESIGN, module="OPFKnn"):
@@ -44,7 +44,21 @@ def scenarios(rep, tier, seed, pid_salt=13, nq=0):
     nd = 12000 if thorough else 2500
     for _ in range(nd):
         scns.append(K.direct_scenario(rng))
-    rep.cov["direct_clustering_scenarios"] = nd
+    # ... and exhaustively for n = 4, k = 1 over three densities half a unit apart (the smallest shape in which a later
+    # root can out-bid an already finalised sample: chain s -> r -> q plus a root p with q in its neighbourhood)
+    import itertools
+    others = [[j for j in range(4) if j != i] for i in range(4)]
+    nex = 0
+    grid = (2.5, 3.0, 3.25, 3.5, 4.0)       # gaps of 1/4, 1/2, 3/4, 1 and more: densities within 1 of each other, not equal
+    allc = [(dens, adj) for dens in itertools.product(grid, repeat=4) if len(set(dens)) >= 3 for adj in itertools.product(*others)]
+    if not thorough:
+        allc = rng.sample(allc, 9000)
+    for dens, adj in allc:
+        kind, force = rng.choice((("knn", False), ("knn", True), ("knn", False), ("unsup", False)))
+        scns.append({"kind": kind, "direct": True, "n": 4, "k": 1, "dens": list(dens), "adj": [[a] for a in adj], "Y": [0, 0, 0, 0], "force": force})
+        nex += 1
+    rep.cov["direct_clustering_scenarios"] = nd + nex
+    rep.cov["direct_clustering_exhaustive_n4_k1"] = nex
     return scns
 
 
